@@ -52,6 +52,21 @@ CLAIMS = {
              "huge ints, is outside). Unverified: constant folding (Optimize.ConstantFolding), Utils.str_to_number and the text "
              "normalisation done by IntNode/FloatNode before the pool is asked, literal emission, get_py_const / string constants.",
         ref="4 C09"),
+    "C11": dict(
+        text="Proof for texts of UNBOUNDED length (symbolic character array + length, Python slicing with clamping, `in` / find on "
+             "statically bounded windows) that StringEncoding.split_string_literal either returns the escaped text unchanged or cuts it into "
+             "non-empty chunks that tile it in order with EVERY cut on a token boundary of the escaped text (plain character | backslash + "
+             "non-octal character | backslash + three octal digits) - the condition under which a C compiler, which processes escapes per "
+             "literal before concatenating adjacent literals, reads the same bytes; loop invariants and termination for both loops, for "
+             "every limit >= 8. EXHAUSTIVE over the full finite domain: escape_char for all 256 byte values read back as a C character "
+             "constant. BOUNDED (labelled, not counted): escape_byte_string for all byte strings of length <= 2 plus a random sample, "
+             "read back with a C lexer model including trigraph replacement.",
+        note="Trusted: dv Python front end (PSeq string model), z3; the token model WF of escaped texts (what escape_byte_string emits: "
+             "validated by the bounded check on the real function, not proved); lemma L3 (even offsets inside a run of backslashes are "
+             "token boundaries): its step is discharged as a lemma unit, the induction schema is applied by hand; the C lexer model used "
+             "for replays (C11 5.1.1.2, 6.4.4.4). Unverified: _build_specials_replacer's regular expressions beyond the bounded check, "
+             "Code._write_escaped_cstring_const, the string-table writer's own chunking, encode_pyunicode_string.",
+        ref="4 C11"),
     "C40": dict(
         text="Proof of the two decision points of safe type inference in TypeInference.py (real functions, sidecar contracts): "
              "MarkOverflowingArithmetic.visit_BinopNode visits the operand names of EVERY binary operator whose C result can leave the "
